@@ -15,7 +15,11 @@ class C07(Prop):
     id = "C07"
     lean_modules = ["PkgProofs.Props.C07"]
     generated = ["MarkerTok"]
-    theorems = []
+    theorems = ["C07.groups_is_or_of_ands", "C07.eval_op_dispatch", "C07.undefined_comparison_iff", "C07.either_side",
+                "C07.evalAtom_refines", "C07.extra_normalised_both_sides", "C07.extra_spelling_irrelevant",
+                "C07.env_effective", "C07.buildEnv_ok", "C07.evaluate_refines", "C07.pure_of_effective_env",
+                "C07.parse_precedence", "C07.atomSem_normAtom", "C07.marker_evaluate_refines",
+                "MkParse.parse_print", "MkParse.formulaOf_lst", "MkParse.fOfL_norm"]
     rule = ("random and/or formulas (depth <= 6, flat mixed chains 'a or b and c or d', redundant parentheses to depth 4, "
             "both operand orders, both quote styles, PEP 345 dotted spellings, all ten operators, literals over the PEP 508 "
             "string alphabet) x environments (version-like and non-version-like values per variable, extra needing "
